@@ -121,7 +121,7 @@ def run(ctx):
                         wt = rng.choice(block_types)
                         attrs = gen.gen_attrs(rng, wt)
                         st, wr = outcome(lambda: find_wrapping(br, wt, attrs))
-                        replay = dict(base, helper="find_wrapping", to=q, range=[br.start, br.end, br.depth], wrapper=wt.name)
+                        replay = dict(base, helper="find_wrapping", to=q, range=[br.start, br.end, br.depth], wrapper=wt.name, wrapper_attrs=attrs)
                         if st != "ok":
                             ctx.violation("find_wrapping-raises", f"find_wrapping raised {wr}", replay)
                         elif wr is not None:
